@@ -412,7 +412,7 @@ func TestRtspWebsocket(t *testing.T) {
 	resetNotes()
 	pbt.Run(t, pbt.Spec[WsCase]{
 		ID: "C13", Name: "rtsp-websocket", Gen: genWsCase(false), Run: runWs, Classify: classifyWs, Isolate: true,
-		Quick: 400, Thorough: 2000,
+		Quick: 70, Thorough: 1000,
 	})
 }
 
@@ -423,6 +423,6 @@ func TestWsFrameLength(t *testing.T) {
 	resetNotes()
 	pbt.Run(t, pbt.Spec[WsCase]{
 		ID: "C13", Name: "ws-frame-length", Gen: genWsCase(true), Run: runWs, Classify: classifyWs, Isolate: true,
-		Quick: 150, Thorough: 800,
+		Quick: 30, Thorough: 400,
 	})
 }
